@@ -579,6 +579,15 @@ pub fn rec_block1(args: &Args) {
         xid += 1;
         upload(&mut out, start, &u, &mut r, xid);
     }
+    // uploads long enough for the Block1 value to need two bytes and for block numbers above 255 (the
+    // largest bodies of C09's range at the smallest block size)
+    for (body_len, szx) in if thorough { vec![(4200usize, 0u8), (5000, 0), (4097, 0), (8300, 1)] } else { vec![(4200usize, 0u8)] } {
+        let probe = mkreq(&ReqSpec { code: 3, typ: 0, mid: 0, tok: vec![0; 2], segs: &segs[0], b1: Some((300, true, szx)), b2: None, pay: vec![], extra: vec![] });
+        let ov = probe.to_bytes_unlimited().unwrap().len();
+        let u = Ul { body_len, szx, m: ov + 12 + (16usize << szx) + 40, dups: vec![1, 1, 1, 2], abandoned: 0, abandoned_len: 0, toklen: 2, segs: segs[0].clone(), follow: false, grow: 0, reply_len: 0, reply_optset: 0, b2hint: None };
+        xid += 1;
+        upload(&mut out, start, &u, &mut r, xid);
+    }
     // requests too large for the budget without a Block1 option (4.13 rule), three-valued band
     for _ in 0..(if thorough { 600 } else { 80 }) {
         let m = r.range(40, 1280) as usize;
